@@ -67,6 +67,7 @@ type HarnessConfig struct {
 	Bounds          map[string]any    `json:"bounds"`
 	Outside         []string          `json:"outside_the_claim"`
 	Technique       string            `json:"technique"`
+	SplitEncoding   string            `json:"split_encoding"` // "indexof" (default) or "wordeq"
 
 	dir      string
 	pkgName  string
